@@ -854,6 +854,11 @@ func (env *Env) callExpr(x *CCall) EV {
 			t = "(hv_org " + t + ")"
 		}
 		return EV{T: fmt.Sprintf("(and (> (hv_base %s) %s) (<= (hv_base %s) %s))", t, env.old.allocTop, t, env.st.allocTop), Typ: boolT}
+	case "existed":
+		// existed(p): p was allocated in the old (entry / pre-call) state
+		need(1)
+		v := arg(0)
+		return EV{T: fmt.Sprintf("(<= (hv_base %s) %s)", v.T, env.old.allocTop), Typ: boolT}
 	case "allocated":
 		need(1)
 		v := arg(0)
@@ -1072,6 +1077,16 @@ func (env *Env) locsOf(l CExpr) []assignLoc {
 			return out
 		}
 		env.errf("[*] needs a slice: %s", l)
+	}
+	if c, ok := l.(*CCall); ok && c.Fn == "allof" && len(c.Args) == 1 {
+		// allof(Type): the memory of a plain-data struct type (all objects)
+		if id, ok := c.Args[0].(*CIdent); ok {
+			if t, _ := env.resolveType(id.Name); t != nil && isValueLike(t) {
+				hv := fe.eng.memVar(t)
+				fe.heapSorts[hv] = arrSort(fe.sorts().sortOf(t))
+				return []assignLoc{{hv: hv, all: true, addr: "0"}}
+			}
+		}
 	}
 	if c, ok := l.(*CCall); ok && c.Fn == "allof" {
 		// allof(Type.field): the whole heap variable
